@@ -838,6 +838,8 @@ class C07(SimCheck):
             simgen.set_handler(scn["cfg"], "mobility", False)
         if r.random() < 0.2:
             scn = simgen.make_decimal(scn)       # timers at non-dyadic times, set at every moment of the run
+        if r.random() < 0.12:
+            scn = simgen.make_crowd(scn, r)      # (node, name) pairs that are spelt alike
         return scn
 
     def obs(self, case, res):
